@@ -549,6 +549,11 @@ def run(ck: Check):
     ck.extra["time_budget_exhausted"] = time.time() > t_end
     explore_objectives(ck, found)
     mixed_batch_joints(ck, found)
+    explore_routes(ck, found)
+    ck.extra["tensor_constructors_without_dtype_or_device_in_anchored_files"] = scan_constructors_without_dtype()
+    t_extra = time.time() + (25 if not ck.thorough() else 120)
+    explore_regimes(ck, cases, found, t_extra)
+    explore_live_updates(ck, cases, found, t_extra)
     ck.extra["classes_covered"] = sorted({c.name for c in cases})
 
     report(ck, found)
@@ -595,6 +600,9 @@ def report(ck, found):
                     f"per sample; JointDistributionModel then reduces across samples")
         elif rep["verdict"] == "objective":
             what = rep["detail"]["what"]
+        elif rep["verdict"] in ("regime", "route"):
+            d = rep["detail"]
+            what = d.get("what") if isinstance(d, dict) and d.get("what") else f"{kind}: {json.dumps(d, default=str)[:200]}"
         else:
             what = ("row differs from its slice" if rep["verdict"] == "value"
                     else "a number is returned that has no per-sample rows and differs from the slices")
@@ -607,17 +615,38 @@ def report(ck, found):
 
 
 # ----------------------------------------------------------------------------- replay
-def find_case(name, components=None):
-    cases = CS.all_cases(True) + CS.mixed_batch_components()
+def _norm_name(name):
+    import re
+
+    return re.sub(r",?n=\d+", "", name).replace("[]", "")
+
+
+def find_case(name, components=None, base=None):
+    """look a case up by name; names written before the taxon count became part of the name (`,n=4`) still resolve:
+    among the candidates the one whose parameter shapes equal those stored in the replay is taken"""
+    cases = CS.all_cases(True) + CS.mixed_batch_components() + CS.json_cases() + CS.minimum_size_cases() + [
+        CS.soft_skygrid_distribution_case()]
+
+    def one(nm, shapes=None):
+        exact = [c for c in cases if c.name == nm]
+        cand = exact or [c for c in cases if _norm_name(c.name) == _norm_name(nm)]
+        if shapes:
+            fit = [c for c in cand if all(k in c.params and tuple(c.params[k].shape) == tuple(sh) for k, sh in shapes.items())]
+            cand = fit or cand
+        return cand[0] if cand else None
+
     if components:
-        by = {c.name: c for c in cases}
-        if all(n in by for n in components):
-            return CS.joint_case([by[n] for n in components])
-        return None
-    for c in cases:
-        if c.name == name:
-            return c
-    return None
+        comps = []
+        for i, nm in enumerate(components):
+            shapes = None
+            if base:
+                shapes = {k.split(".", 1)[1]: v["shape"] for k, v in base.items() if k.startswith(f"{i}.")}
+            c = one(nm, shapes)
+            if c is None:
+                return None
+            comps.append(c)
+        return CS.joint_case(comps)
+    return one(name, {k: v["shape"] for k, v in base.items()} if base else None)
 
 
 def replay(path: str) -> int:
@@ -627,7 +656,7 @@ def replay(path: str) -> int:
     if obj.get("kind") != "per-slice":
         print("replay names broken obligations only:", obj.get("broken_obligations"))
         return 1
-    case = find_case(obj["case"], obj.get("components"))
+    case = find_case(obj["case"], obj.get("components"), obj.get("base"))
     if case is None:
         print("unknown case", obj["case"])
         return 2
@@ -641,6 +670,8 @@ def replay(path: str) -> int:
             v[k] = torch.stack([pool[k][pool_index(ss, s)] for s in sample_indices(ss)]).reshape(ss + tuple(b.shape))
         else:
             v[k] = b
+    if obj.get("regime") or obj.get("twin"):
+        return replay_regime(case, obj, v, base, pool, B, ss)
     fs = getattr(case, "spec", None) or case.build
     st, out = call(case.build, v)
     print(f"{case.name}: batched {sorted(B)} sample shape {list(ss)} -> {st}",
@@ -1029,3 +1060,69 @@ def shape_inference_correspondence(ck: Check, drv):
                 if rep == "bad-op" or got != parse_shape(rep):
                     ck.mismatch("Distribution._sample_shape differs from the model",
                                 {"distribution": kind, "x": x, "parameter": p, "impl": got, "model": rep})
+
+
+def replay_regime(case, obj, v, base, pool, B, ss) -> int:
+    """re-execute a finding of the fourth-wave passes (how the batched evaluation is reached)"""
+    kind = obj.get("regime") or "route"
+    fresh = lambda: {k: t.clone() for k, t in v.items()}  # noqa: E731
+    slices = lambda cast=None: {  # noqa: E731
+        s: {k: ((pool[k][pool_index(ss, s)] if k in B else b).clone()) for k, b in base.items()} for s in sample_indices(ss)}
+    print(f"{case.name}: batched {sorted(B)} sample shape {list(ss)}: {kind}")
+    plain = call(case.build, fresh())
+    bad = False
+    if kind == "route":
+        twin = find_case(obj["twin"], None, obj.get("base"))
+        other = call(twin.build, fresh())
+        bad = not _bitwise(plain, other)
+        print("  built through from_json:", plain[1].reshape(-1)[:4].tolist() if plain[0] == "ok" else plain[1])
+        print("  built by the constructor:", other[1].reshape(-1)[:4].tolist() if other[0] == "ok" else other[1])
+    elif kind == "input-mutated":
+        vv = fresh()
+        call(case.build, vv)
+        changed = [k for k in vv if not torch.equal(vv[k], v[k])]
+        print("  inputs modified in place:", changed)
+        bad = bool(changed)
+    elif kind == "repeat-differs":
+        bad = not _bitwise(plain, call(case.build, fresh()))
+    elif kind == "no_grad-differs":
+        with torch.no_grad():
+            ng = call(case.build, fresh())
+        bad = ng[0] == "ok" and not _bitwise(plain, ng)
+        print("  autograd:", plain[1].reshape(-1)[:4].tolist() if plain[0] == "ok" else plain[1], " no_grad:",
+              ng[1].reshape(-1)[:4].tolist() if ng[0] == "ok" else ng[1])
+    elif kind == "requires_grad-differs":
+        rg = call(case.build, {k: (t.clone().requires_grad_(True) if t.is_floating_point() else t) for k, t in v.items()})
+        bad = rg[0] == "ok" and not _bitwise(plain, rg)
+    elif kind == "live-update":
+        obj_ = case.mk({k: b.clone() for k, b in base.items()})
+        ps = {}
+        for p in obj_.parameters():
+            ps.setdefault(str(p.id), p)
+        first = obj_().detach().clone()
+        for k in sorted(B):
+            ps[k].tensor = v[k].clone()
+        live = call(lambda _v: obj_(), None)
+        for k in sorted(B):
+            ps[k].tensor = base[k].clone()
+        back = call(lambda _v: obj_(), None)
+        ok1 = plain[0] == "raise" or (live[0] == "ok" and live[1].shape == plain[1].shape and close(live[1], plain[1]))
+        ok2 = back[0] == "ok" and close(back[1], first)
+        print("  fresh:", plain[1].reshape(-1)[:4].tolist() if plain[0] == "ok" else plain[1], " live:",
+              live[1].reshape(-1)[:4].tolist() if live[0] == "ok" else live[1], " back to unbatched ok:", ok2)
+        bad = not (ok1 and ok2)
+    else:  # dtype regimes: row vs slice inside the regime
+        f32_default = kind.startswith("default-float32")
+        cast = (lambda t: t) if f32_default else (lambda t: t.to(torch.float32) if t.dtype == torch.float64 else t)
+        with _default_dtype(torch.float32 if f32_default else torch.float64):
+            a = call(case.build, {k: cast(t.clone()) for k, t in v.items()})
+            sl = {s: call(case.build, {k: cast(t) for k, t in vs.items()}) for s, vs in slices().items()}
+        if a[0] == "ok" and all(x[0] == "ok" for x in sl.values()):
+            for s, x in sl.items():
+                r, q = a[1][s].reshape(-1).double(), x[1].reshape(-1).double()
+                tol = (RTOL if f32_default else 2e-3) * torch.clamp(torch.maximum(r.abs(), q.abs()), min=1.0)
+                okrow = r.shape == q.shape and bool(((r - q).abs() <= tol).all())
+                print(f"  sample {list(s)}: row {r[:3].tolist()} slice {q[:3].tolist()} {'ok' if okrow else 'DIFFERS'}")
+                bad = bad or not okrow
+    print("verdict:", "VIOLATES" if bad else "ok")
+    return 1 if bad else 0
